@@ -28,7 +28,7 @@ const QVALS: &[&str] = &["0.5", "0.8", "0.9", "1", "1.0", "0", "0.", "0.123", "1
 const RAW_AL: &[&str] = &["en;q=1e-1,fr;q=0.5", "en;q=+0.5,fr", "en;q=0.1234,fr;q=0.123", "en;q=inf", "en;q=nan,fr;q=0.1", "en;q=abc,fr", "en;q=,fr;q=0.9",
     "en;q=q=0.5,fr;q=0.6", "en;Q=0.5,fr;q=0.6", "fr;level=1;q=0.5,en;q=0.6", "en; q=0.5, fr; q=0.9", "en;q=0.5 ,fr;q=0.4", "en;q=2,fr;q=10", "en;q=999.999,fr;q=1000",
     "en;q=-1,fr;q=0.1", "en;q=.5,fr;q=0.4", "en;q=5.,fr", ",,en", ";q=0.5,fr", "-en,fr;q=0.1", "en;q=0.5;q=0.9", "en;q=1E2", "en;q=Infinity", "en;q=0x10", "en;q=1_0",
-    " en , fr ", "en,en;q=0.5", "\u{3000}en\u{3000};q=0.5", "en;q=0.5\u{a0}", "xx;q=nan,en", "en;q=0.0001,fr;q=0.0002", "de;q=1.0000"];
+    " en , fr ", "en,en;q=0.5", "\u{3000}en\u{3000};q=0.5", "en;q=0.5\u{a0}", "xx;q=nan,en", "en;q = 0.5,fr;q=0.4", "en;\tq=0.5\t,fr; q=0.6 ", "EN;q=0.5,Fr-ca;q=0.6", "en;q= 0.5,fr;q=0.4", "en;\u{a0}q=0.5\u{3000},fr;q=0.6", "en; q=q=0.5,fr;q=0.6", "eN-US,XX", "en;q=0.0001,fr;q=0.0002", "de;q=1.0000"];
 const STATUSES: &[&str] = &["200", "204", "301", "302", "304", "400", "404", "500", "503", "100", "101", "999", "000"];
 const REASONS: &[&str] = &["OK", "", "Not Found", "Moved Permanently", "No Content", "Internal Server Error", "\u{d1}o", "OK  extra   words"];
 
@@ -52,13 +52,14 @@ pub fn lang_item(r: &mut Rng, tidy: bool) -> Item {
         Some((a, b, r.pick(QVALS).as_bytes().to_vec()))
     } else { None };
     let (pre, post) = if tidy { (vec![], vec![]) } else { (if r.chance(1, 2) { b" ".to_vec() } else { ows(r) }, if r.chance(1, 6) { ows(r) } else { vec![] }) };
-    Item { pre, tag: tag.into_bytes(), w, post }
+    let upper_q = w.is_some() && !tidy && r.chance(1, 25);
+    Item { pre, tag: tag.into_bytes(), w, post, upper_q }
 }
 pub fn lang_list(r: &mut Rng) -> Vec<Item> {
     let n = r.range(1, 6) as usize;
     let tidy = r.chance(1, 3);
     let mut v: Vec<Item> = (0..n).map(|_| lang_item(r, tidy)).collect();
-    if r.chance(1, 5) && !v.is_empty() { let k = r.below(v.len() as u64) as usize; let d = Item { pre: v[k].pre.clone(), tag: v[k].tag.clone(), w: v[k].w.clone(), post: v[k].post.clone() }; v.push(d); }
+    if r.chance(1, 5) && !v.is_empty() { let k = r.below(v.len() as u64) as usize; let d = Item { pre: v[k].pre.clone(), tag: v[k].tag.clone(), w: v[k].w.clone(), post: v[k].post.clone(), upper_q: v[k].upper_q }; v.push(d); }
     if let Some(f) = v.first_mut() { f.pre.clear(); }
     if let Some(l) = v.last_mut() { l.post.clear(); }
     v
@@ -195,7 +196,7 @@ pub fn gen(r: &mut Rng, tier: &Tier, out: &mut Vec<String>) {
     // ---- exhaustive-small: every two-letter code against the language table ----
     for a in b'a'..=b'z' { for b in b'a'..=b'z' {
         let m = Msg { start: Start::Req { method: "GET".into(), target: b"/".to_vec(), v: 1 },
-            hs: vec![H { name: b"Accept-Language".to_vec(), o1: b" ".to_vec(), v: Val::Lang(vec![Item { pre: vec![], tag: vec![a, b], w: None, post: vec![] }]), o2: vec![] }] };
+            hs: vec![H { name: b"Accept-Language".to_vec(), o1: b" ".to_vec(), v: Val::Lang(vec![Item { pre: vec![], tag: vec![a, b], w: None, post: vec![], upper_q: false }]), o2: vec![] }] };
         out.push(encode(&m, &[]));
     }}
     // ---- malformed heads (raw bytes) ----
